@@ -80,6 +80,35 @@ class C13(Prop):
                     else:
                         ctx = self.text(r, r.choice([1, 3, 12]), al)
                         a, b = ctx + pre + x + b"\n" + ctx, ctx + pre + y + b"\n" + ctx
+                if r.chance(1, 8):
+                    # the auto-junk regime of the matcher: the second text has >= 200 lines, mostly unique, and one line occurring
+                    # about n/100 + 1 times (the popularity threshold), next to the edits - matches must then be EXTENDED over it
+                    nb = r.choice([199, 200, 201, 230, 299, 300, 301, 399, 400])
+                    ntest = nb // 100 + 1
+                    cnt = max(0, ntest + r.choice([-1, 0, 0, 1, 1, 2]))
+                    lines_b = [b"u%d" % j for j in range(nb - cnt)]
+                    for _ in range(cnt):
+                        lines_b.insert(r.below(len(lines_b) + 1), b"POP")
+                    lines_a = list(lines_b)
+                    for _ in range(r.range(1, 6)):
+                        j = r.below(len(lines_a))
+                        kind = r.below(4)
+                        if kind == 0:
+                            del lines_a[j]
+                        elif kind == 1:
+                            lines_a.insert(j, r.choice([b"new", b"POP", b"u%d" % r.below(nb)]))
+                        elif kind == 2:
+                            lines_a[j] = b"changed%d" % j
+                        else:
+                            # edit right next to an occurrence of the popular line
+                            pops = [q for q, l in enumerate(lines_a) if l == b"POP"]
+                            if pops:
+                                q = r.choice(pops)
+                                if q + 1 < len(lines_a):
+                                    lines_a[q + 1] = b"after-pop%d" % q
+                                if q > 0 and r.chance(1, 2):
+                                    lines_a[q - 1] = b"before-pop%d" % q
+                    a, b = b"\n".join(lines_a), b"\n".join(lines_b)
                 if r.chance(1, 10):
                     a, b = b, a
                 name = r.choice([b"", b"__snapshots__/x_test.snap", b"a b\xff:1"])
